@@ -18,3 +18,12 @@ Definition run_stages (arg : option (list stage_arg)) : string :=
   | POk l => "ok:" ++ String.concat "," (map stage_name l)
   | PErr => "dds:NONE"
   end.
+
+From DDS Require Import L2_Disc.Cycle.
+Definition run_graph (g : graph) (root : bytes) : string :=
+  match analyse_graph g root with
+  | VOk _ => "ok"
+  | VCircular => "dds:CIRCULAR_CALL"
+  | VEvalInEval => "dds:EVAL_IN_EVAL"
+  | VFuel => "model:fuel"
+  end.
